@@ -77,6 +77,11 @@ def failing_calls(u, rng):
     calls.append(('insertBefore foreign reference', lambda: P2.insertBefore(SPAN, C1 if C1.parentNode is not P2 else T2 if T2.parentNode is not P2 else LI),
                   ('dom_step', '(insert %d %d %d)' % (f[1], f[2], f[5] if C1.parentNode is not P2 else f[4] if T2.parentNode is not P2 else f[7]))))
     calls.append(('removeChild non-child', lambda: P2.removeChild(P1 if P1.parentNode is not P2 else LI), ('dom_step', '(remove %d %d)' % (f[1], f[0] if P1.parentNode is not P2 else f[7]))))
+    if u.doc is not None:
+        # a node that IS in the document, but not under this parent (the lookups must not forget it)
+        tgt, tid = (SPAN, f[2]) if SPAN.parentNode is not cont else (T1, f[3])
+        calls.append(('removeChild of a node attached elsewhere', lambda: cont.removeChild(tgt), ('dom_step', '(remove %d %d)' % (u.id_of(cont), tid))))
+        calls.append(('removeChild of a node attached elsewhere, from office:styles', lambda: styles.removeChild(tgt), ('dom_step', '(remove %d %d)' % (u.id_of(styles), tid))))
     calls.append(('appendChild under a text node', lambda: T1.appendChild(SPAN), ('dom_step', '(append %d %d)' % (f[3], f[2]))))
     calls.append(('insertBefore under a text node', lambda: T1.insertBefore(SPAN, None), ('dom_step', '(insert %d %d N)' % (f[3], f[2]))))
     return calls
